@@ -75,7 +75,6 @@ func oracle(w *out.W, sc scenario, recs []stepRec) {
 		fmt.Fprintf(&b, " now dir=%s database=%s `migrate status`: %s", recs[i].dir, recs[i].after, recs[i].status.Text)
 		return b.String()
 	}
-	setFloor := "" // greatest version the user declared applied with a successful `migrate set`
 	for i, rec := range recs {
 		S := rec.status
 		if S.Err == "not-asked" {
@@ -204,8 +203,11 @@ func oracle(w *out.W, sc scenario, recs []stepRec) {
 				return
 			}
 			if rec.set.OK {
-				if V > setFloor {
-					setFloor = V
+				for _, r := range st.Revs {
+					if r.Ver <= V && r.Applied != r.Total {
+						w.Violation(sc.id, "set-leaves-partial-row", fmt.Sprintf("after `set %s` revision %s is still %d/%d: %s", V, r.Ver, r.Applied, r.Total, desc(i)))
+						return
+					}
 				}
 				for _, r := range st.Revs {
 					if r.Ver > V {
@@ -239,8 +241,6 @@ func oracle(w *out.W, sc scenario, recs []stepRec) {
 		if !S.OK {
 			lastGone := last != nil && last.Applied < last.Total && rec.dir.find(last.Ver) == nil
 			switch {
-			case S.Err == "notclean" && st.HasTable && last == nil && st.Dirty:
-				// Report runs Pending without --allow-dirty: refused like a first apply would be
 			case (strings.HasPrefix(S.Err, "missing:") || strings.HasPrefix(S.Err, "filenotfound:")) && lastGone:
 			default:
 				w.Violation(sc.id, "status-failed", "status gave no answer: "+desc(i))
@@ -275,9 +275,6 @@ func oracle(w *out.W, sc scenario, recs []stepRec) {
 					continue
 				}
 				if r != last {
-					if r.Ver <= setFloor {
-						continue // declared applied by the user (set to a later version)
-					}
 					if !has(pend, r.Ver) && !has(ooo, r.Ver) {
 						w.Violation(sc.id, "nonlinear-partial-not-resumed", fmt.Sprintf("revision %s is partially applied (%d/%d) but not the greatest one, and is never resumed: %s", r.Ver, r.Applied, r.Total, desc(i)))
 						return
